@@ -73,7 +73,7 @@ theorem twin_E_frame (hps : ∀ p ∈ ps, p.1 < s₀.groups.size)
     e₂.noArgs = na ∧ e₂.testTypes = nt ∧ s₀.next + kk ≤ e₂.next ∧ s₀.nodes.size + 1 ≤ e₂.nodes.size ∧
     e₂.groups.size = s₀.groups.size + 2 ∧ BlkEq (twT s₀ ps n kk) e₂ := by
   have ok : (PselfE na nt s₀ (twT s₀ ps n kk)).Ok :=
-    ⟨fun _ _ h => h, fun _ _ h => h, fun _ _ h => h, fun h => Bool.noConfusion h, fun _ _ => rfl⟩
+    ⟨fun _ _ h => h, fun _ _ h => h, fun _ _ h => h, fun h => Bool.noConfusion h, fun _ _ => rfl, fun h => Bool.noConfusion h⟩
   have ha : ASim (PselfE na nt s₀ (twT s₀ ps n kk)) (twT s₀ ps n kk) (twT s₀ ps n kk) := asim_self (na := na) (nt := nt) (s := twT s₀ ps n kk) (fun i => i ≠ s₀.nodes.size)
     (fun j => j < s₀.groups.size ∨ s₀.groups.size + 2 ≤ j) (fun _ => False) s₀.groups.size
     hg.hna hg.hnt (by rw [twT_groups_size]; omega)
@@ -117,7 +117,7 @@ theorem twin_E_frame (hps : ∀ p ∈ ps, p.1 < s₀.groups.size)
     (fun p => addExit f p.1 d p.2) (fun p => addExit f p.1 (rnDest id d) p.2) ha
     (by
       intro p hp u₁ u₂ hu
-      exact addExit_rel ok f f p.1 d p.2 u₁ u₂ hu (.inl (hps p hp)) (fun h => h))
+      exact addExit_rel ok f f p.1 d p.2 u₁ u₂ hu (.inl (hps p hp)) (fun h => h) (fun h => Bool.noConfusion h))
   have hmap : ps.map (fun p : Nat × Cond => (id p.1, p.2)) = ps := by simp
   have hdd : rnDest id d = d := by cases d <;> rfl
   rw [hmap, hdd] at hrun
